@@ -6,6 +6,7 @@ requests and the two output streams are compared line by line.
 import Ajson.Model.Dump
 import Ajson.Model.Decode
 import Ajson.Model.Session
+import Ajson.Model.Cli
 
 open Ajson
 
@@ -62,6 +63,29 @@ def handle (line : String) : String :=
       | .err e => errStr e
       | .panic s => "panic " ++ s
     | none => "bad-hex"
+  | ["cli", mode, x, table] =>
+    match fromHex x with
+    | none => "bad-hex"
+    | some input =>
+      let entries : List (Bytes × Cli.LibRes) := (table.splitOn ";").filterMap (fun e => match e.splitOn "=" with
+        | [k, v] => match fromHex k with
+          | some kb =>
+            if v == "P" then some (kb, Cli.LibRes.parseErr)
+            else if v == "Q" then some (kb, Cli.LibRes.queryErr)
+            else match (v.drop 1).toString.splitOn ":" with
+              | [s, m] => some (kb, Cli.LibRes.value (s == "1") (if m == "E" then none else fromHex m))
+              | _ => none
+          | none => none
+        | _ => none)
+      let lib : Bytes → Cli.LibRes := fun l => ((entries.find? (fun p => p.1 == l)).map (·.2)).getD Cli.LibRes.parseErr
+      let multiline := mode.startsWith "m"
+      let quiet := mode.endsWith "q"
+      let (out, code, err) := Cli.run multiline quiet lib input
+      s!"{hexOrDash out} {code} {if err then 1 else 0}"
+  | ["race", _, _, _] =>
+    -- the model's prediction for any pair of read-only operations run concurrently on one tree: every call returns what it
+    -- returns alone (Props.C12: reads write nothing but deterministic cache fills)
+    "ok"
   | ["utf8", x] => match fromHex x with
     | some bs => let (r, s) := decodeRune bs; s!"{r} {s} {toHex (encodeRune r)}"
     | none => "bad-hex"
